@@ -110,8 +110,12 @@ def batch_worker(kp, job):
     seed, idx = job
     rng = random.Random(seed * 86028121 + idx)
     layouts = [['**kern'], ['**kern', '**kern'], ['**text', '**kern'], ['**kern', '**dynam', '**kern'], ['**text', '**kern', '**dynam'],
-               ['**harm', '**kern'], ['**kern', '**fing', '**text'], ['**mxhm', '**kern', '**kern', '**text']]
+               ['**harm', '**kern'], ['**kern', '**fing', '**text'], ['**mxhm', '**kern', '**kern', '**text'],
+               # spine types outside the built-in ones whose NAME begins with the letters of an encoding prefix
+               ['**kern', '**beat'], ['**embel', '**kern'], ['**accent', '**kern', '**aeon'], ['**bell', '**kern', '**ekey']]
     body = {'**kern': ['4c', '4d'], '**text': ['la', 'li'], '**dynam': ['p', 'f'], '**harm': ['I', 'V'], '**fing': ['1', '2'], '**mxhm': ['C', 'G7']}
+    for h_ in ('**beat', '**embel', '**accent', '**aeon', '**bell', '**ekey'):
+        body[h_] = ['x', 'y']
     viol = []
     trail = []
     n = 0
@@ -124,7 +128,7 @@ def batch_worker(kp, job):
             if enc in ('akern', 'aekern'):
                 continue            # no clef in these miniatures
             try:
-                out = kp.dumps(doc, encoding=kp.Encoding(enc))
+                out = kp.dumps(doc, encoding=kp.Encoding(enc), spine_types=sorted(set(hs)))
             except Exception as e:
                 out = 'err:' + type(e).__name__
             want = '\t'.join('**' + spec.PREFIX[enc] + h[2:] for h in hs)
